@@ -56,6 +56,7 @@ func getSwapOutReceiverStates() States {
 			Events: Events{
 				Event_OnFeeInvoicePaid: State_SwapOutReceiver_BroadcastOpeningTx,
 				Event_OnCancelReceived: State_SwapCanceled,
+				Event_OnTimeout:        State_SendCancel,
 				Event_ActionFailed:     State_SendCancel,
 			},
 			FailOnrecover: true,
